@@ -26,7 +26,7 @@ Next ==
   /\ l <= Len(Rec)
   /\ LET e == Rec[l] IN
      /\ Bump(3)
-     /\ CASE e.ev = "reset" -> TRUE
+     /\ CASE e.ev \in {"reset", "sum"} -> TRUE     \* sum: digest line for the bookkeeping of the check (counts distinct documents)
           [] e.ev = "doc" ->
                /\ Bump(4)
                /\ Check(e.save = "ok" /\ e.load = "ok", "C07", "SaveLoadOk", l, [case |-> e.case, cls |-> e.cls, save |-> e.save, load |-> e.load, site |-> e.site])
